@@ -290,7 +290,9 @@ func (x *Exec) storeGet(st *State, h *storeHandle, key T) T {
 	s := st.Worlds[h.World][h.Name]
 	opt := T{S: fmt.Sprintf("(select %s %s)", s.S, k.S), So: "OptS"}
 	isSome := T{S: fmt.Sprintf("((_ is some) %s)", opt.S), So: SBool}
-	return Ite(isSome, T{S: fmt.Sprintf("(someval %s)", opt.S), So: SString}, T{S: `""`, So: SString})
+	r := Ite(isSome, T{S: fmt.Sprintf("(someval %s)", opt.S), So: SString}, T{S: `""`, So: SString})
+	r.Nil = Not(isSome).S
+	return r
 }
 
 func (x *Exec) storeHas(st *State, h *storeHandle, key T) T {
